@@ -170,6 +170,8 @@ class VM(object):
         self.fib = [None] * len(self.nodes)
         self.log = []
         self.features = set()
+        self.wv = 0            # the variable rebound by with-vars
+        self.wv_used = False
 
     # -- resume eligibility (docstring of resume / fiber/status; vm.c janet_check_can_resume)
     def cont(self, f, v):
@@ -432,6 +434,20 @@ class VM(object):
                 return self.L(i, r)
             r = yield from self.op_propagate(f, r, d)
             return self.L(i, r)
+        if kind == "withvars":
+            # (with-vars [wv i] ...): the body runs in a fiber with mask :ti; the old value is put back as soon as control
+            # comes back from that fiber, whatever the way (return, error, user signal 0-4, or a signal passing through)
+            self.wv_used = True
+            old = self.wv
+            self.wv = i
+            body = [("in", i)] + list(st[2])
+            d = self.new_fiber(f, "ti", body, "", None, "anon")
+            r = yield from self.op_resume(f, d, None, False)
+            self.wv = old
+            if d.status == "dead":
+                return self.L(i, r)
+            r = yield from self.op_propagate(f, r, d)
+            return self.L(i, r)
         if kind == "in":
             self.log.append((i, Kw("in")))
             return None
@@ -526,13 +542,15 @@ def run(prog):
     fin = [Kw("fin")]
     for t in vm.fib:
         fin.append(None if t is None else (Kw(t.status), t.last))
+    if "'withvars'" in repr(nodes):       # the program text reads the variable at the end whenever the form occurs in it
+        fin.append(vm.wv)
     vm.log.append(tuple(fin))
     return rv(tuple(vm.log)), vm.features
 
 
 # ------------------------------------------------------------------ numbering
 
-COMPOUND_BODY_AT = {"defer": 1, "edefer": 1, "with": 1, "try": 1, "protect": 1,
+COMPOUND_BODY_AT = {"defer": 1, "edefer": 1, "with": 1, "withvars": 1, "try": 1, "protect": 1,
                     "withdyns": 2, "prompt": 2, "cfun": 2}
 
 
@@ -621,6 +639,8 @@ def r_stmt(st):
         return "(L %d (edefer (C %d) (L %d :in) %s))" % (i, i, i, r_body(st[2]))
     if kind == "with":
         return "(L %d (with [r %d W] (L %d :in) %s))" % (i, i, i, r_body(st[2]))
+    if kind == "withvars":
+        return "(L %d (with-vars [wv %d] (L %d :in) %s))" % (i, i, i, r_body(st[2]))
     if kind == "try":
         return "(L %d (try (do %s) ([e] [:caught e])))" % (i, r_body(st[2]))
     if kind == "protect":
@@ -679,7 +699,9 @@ def render(prog):
             break
     decl = " ".join(["(var f%d nil)" % k for k in range(1, len(nodes))])
     fin = " ".join(["(FS f%d)" % k for k in range(len(nodes))])
-    return ("(do (array/clear log) (var f0 nil) %s (set f0 %s) (var n 0) "
+    if "(with-vars " in text:
+        fin += " wv"
+    return ("(do (array/clear log) (var wv 0) (var f0 nil) %s (set f0 %s) (var n 0) "
             "(while (and (< n %d) (fiber/can-resume? f0)) (def r (resume f0 (+ 200 n))) "
             "(array/push log [(+ 200 n) r (fiber/status f0)]) (++ n)) "
             "(array/push log [:fin %s]) log)") % (decl, text, prog.get("top", TOP_RESUMES), fin)
